@@ -541,3 +541,9 @@ LEVEL_NOTE = ('Trusted: Lean kernel; axioms ⊆ {propext, Classical.choice, Quot
               'correspondence, not proved. Outside WellFormed (noted edge CF-B, notes/C06.md): ports omitted '
               'from a topology level without `_path` (read by default, updates dropped).')
 TECHNIQUE = 'Lean 4 proof (induction over declared variables; walking = lexical bridge from C17) + differential model/code check'
+
+
+# reading and writing the same node while other processes / earlier step layers delete or re-create it
+from harness import samenode as _sn                     # noqa: E402
+from harness.mixins import add_family as _add_family    # noqa: E402
+_add_family(globals(), _sn, 'samenode', _sn.oracle, share=0.06)
